@@ -38,6 +38,8 @@ pub unsafe extern "C" fn getrandom(buf: *mut u8, len: usize, _flags: u32) -> isi
 extern "C" {
     fn dup(fd: i32) -> i32;
     fn dup2(a: i32, b: i32) -> i32;
+    fn close(fd: i32) -> i32;
+    fn pipe(fds: *mut i32) -> i32;
 }
 
 pub struct DiagCapture {
@@ -68,6 +70,52 @@ pub fn redirect_stdio(path: &str) -> std::io::Result<File> {
     let reader = File::open(path)?;
     *CAPTURE.lock().unwrap() = Some(DiagCapture { reader, pos: 0 });
     Ok(unsafe { File::from_raw_fd(proto) })
+}
+
+static SAVED_STDIO: Mutex<Option<(i32, i32)>> = Mutex::new(None);
+
+/// Fault on the process's diagnostic streams while a world runs: 1 = stdout is a full device (ENOSPC), 2 = stderr
+/// is, 3 = both are, 4 = stdout is a pipe whose reader has gone (EPIPE; SIGPIPE is ignored in Rust programs).
+pub fn break_stdio(mode: u8) {
+    let _ = std::io::stdout().flush();
+    unsafe {
+        let saved = (dup(1), dup(2));
+        *SAVED_STDIO.lock().unwrap() = Some(saved);
+        let full = std::fs::OpenOptions::new().write(true).open("/dev/full");
+        match mode {
+            4 => {
+                let mut fds = [0i32; 2];
+                if pipe(fds.as_mut_ptr()) == 0 {
+                    close(fds[0]);
+                    dup2(fds[1], 1);
+                    close(fds[1]);
+                }
+            }
+            m => {
+                if let Ok(f) = full {
+                    if m & 1 != 0 {
+                        dup2(f.as_raw_fd(), 1);
+                    }
+                    if m & 2 != 0 {
+                        dup2(f.as_raw_fd(), 2);
+                    }
+                }
+            }
+        }
+    }
+}
+
+pub fn restore_stdio() {
+    // whatever std still buffers for the broken stream is dropped into it, not into the capture file
+    let _ = std::io::stdout().flush();
+    if let Some((o, e)) = SAVED_STDIO.lock().unwrap().take() {
+        unsafe {
+            dup2(o, 1);
+            dup2(e, 2);
+            close(o);
+            close(e);
+        }
+    }
 }
 
 /// Everything written to stdout/stderr since the previous drain.
